@@ -722,8 +722,17 @@ class Interp:
             for item in items:
                 self.tick()
                 ts = Scope(sc, None, pre=targets)
-                self.bind_targets(targets, item, ts)
-                if self.ev(test, ts):
+                try:
+                    self.bind_targets(targets, item, ts)
+                    keep = self.ev(test, ts)
+                except RefError:
+                    if kept:
+                        # the engine filters while it iterates: the body has already run for the kept items, so
+                        # which error surfaces first (this one or one from such a body) is an evaluation-order
+                        # artefact the documentation does not define
+                        raise Ambiguous("loop filter or unpacking fails on a later item after an earlier item was kept")
+                    raise
+                if keep:
                     kept.append(item)
             items = kept
         n = len(items)
